@@ -31,14 +31,18 @@ meta["confirmed"] = ok
 print(json.dumps(meta, indent=1))
 if not ok:
     print("NOT CONFIRMED"); sys.exit(1)
-# run our checks against it
-assert sh("git -C /repo status --porcelain")[1].strip() == "", "/repo not clean"
+# run our checks against it: either on /repo itself (apply, check, undo) or -- while builder agents are
+# using /repo -- on the scratch worktree through VERIF_REPO (SEED_MODE=copy; same code path in bin/check)
+MODE = os.environ.get("SEED_MODE", "repo")
+target = "/repo" if MODE == "repo" else wt
+assert sh(f"git -C {target} status --porcelain")[1].strip() == "", f"{target} not clean"
 res = {}
 for tier in ("quick", "thorough"):
-    assert sh(f"git -C /repo apply {diff}")[0] == 0
+    assert sh(f"git -C {target} apply {diff}")[0] == 0
     try:
         t0 = time.time()
-        rc, o = sh(f"cd /verif && bin/check {pid} {tier} 2>&1 | grep -v '^Exception in callback\\|^handle:' | tail -15", timeout=7200)
+        pre = "" if MODE == "repo" else f"VERIF_REPO={wt} "
+        rc, o = sh(f"cd /verif && {pre}bin/check {pid} {tier} 2>&1 | grep -v '^Exception in callback\\|^handle:' | tail -15", timeout=(600 if tier == "quick" else 2400))
         viol = [l for l in o.splitlines() if l.startswith("VIOLATION")]
         summ = [l for l in o.splitlines() if l.startswith(f"[{pid}]")]
         res[tier] = {"violations": viol[:5], "summary": summ[-1] if summ else o[-300:], "wall_s": round(time.time() - t0)}
@@ -48,7 +52,7 @@ for tier in ("quick", "thorough"):
             if m and os.path.exists(m.group(1)):
                 res[tier]["replay_excerpt"] = open(m.group(1)).read()[:1500]
     finally:
-        sh("git -C /repo checkout -- .")
+        sh(f"git -C {target} checkout -- .")
     if res[tier]["violations"]:
         break
 meta["check"] = res
@@ -59,7 +63,8 @@ os.makedirs(d, exist_ok=True)
 shutil.copy(diff, f"{d}/patch.diff"); shutil.copy(demo, f"{d}/demo.py")
 notes = open(f"{out}/NOTES.md").read() if os.path.exists(f"{out}/NOTES.md") else ""
 meta["needs_to_manifest"] = "see NOTES.md excerpt"; meta["breaker_notes"] = notes[:6000]
-meta["what_was_run"] = f"scratch worktree {wt}: demo on pinned tree (rc {rc0}), full pytest suite with the change ({line}), demo with the change (rc {rc1}); then `git -C /repo apply patch.diff; bin/check {pid} <tier>; git -C /repo checkout -- .`"
+meta["what_was_run"] = f"scratch worktree {wt}: demo on pinned tree (rc {rc0}), full pytest suite with the change ({line}), demo with the change (rc {rc1}); then " + ("`git -C /repo apply patch.diff; bin/check {pid} <tier>; git -C /repo checkout -- .`" if MODE == "repo" else f"patch applied in the scratch worktree and `VERIF_REPO={wt} bin/check {pid} <tier>` (builders were using /repo at the time)")
 json.dump(meta, open(f"{d}/meta.json", "w"), indent=1)
 sh("rm -rf /verif/evidence/replay")
+sh(f"git -C /verif checkout -- evidence/{pid}.json")  # the run on the changed tree rewrote it
 print("DETECTED" if meta["detected"] else "MISSED", json.dumps(res, indent=1)[:1500])
